@@ -33,9 +33,11 @@ from .. import envs as E
 from ..kernel import HarnessError, StopRun, Streams
 from ..ref import improvement as I
 
-VARIANTS = ["kopt2", "kopt3", "kopt4", "pdp_rr"]
-SCOPE = {"kopt2": "tsp_kopt2", "kopt3": "tsp_kopt3", "kopt4": "tsp_kopt4", "pdp_rr": "pdp_ruin_repair"}
-POLICY = {"kopt2": "DACTPolicy", "kopt3": "NeuOptPolicy", "kopt4": "NeuOptPolicy", "pdp_rr": "N2SPolicy"}
+VARIANTS = ["kopt2", "kopt3", "kopt4", "kopt5", "kopt6", "pdp_rr", "kopt2", "pdp_rr"]  # k-opt "for k in {2,3,4,...}"
+SCOPE = {"kopt2": "tsp_kopt2", "kopt3": "tsp_kopt3", "kopt4": "tsp_kopt4", "kopt5": "tsp_kopt5", "kopt6": "tsp_kopt6",
+         "pdp_rr": "pdp_ruin_repair"}
+POLICY = {"kopt2": "DACTPolicy", "kopt3": "NeuOptPolicy", "kopt4": "NeuOptPolicy", "kopt5": "NeuOptPolicy",
+          "kopt6": "NeuOptPolicy", "pdp_rr": "N2SPolicy"}
 
 
 def _only(names):
@@ -59,7 +61,7 @@ def _make_policy(plan):
               feedforward_hidden=pc["embed_dim"])
     if v == "kopt2":
         from rl4co.models.zoo.dact.policy import DACTPolicy as P
-    elif v in ("kopt3", "kopt4"):
+    elif v in ("kopt3", "kopt4", "kopt5", "kopt6"):
         from rl4co.models.zoo.neuopt.policy import NeuOptPolicy as P
     else:
         from rl4co.models.zoo.n2s.policy import N2SPolicy as P
